@@ -55,6 +55,7 @@ from vgi_rpc.utils import new_ipc_stream
 
 __all__ = [
     "ShmAllocator",
+    "ShmPointerError",
     "ShmSegment",
     "is_shm_pointer_batch",
     "make_shm_pointer_batch",
@@ -535,6 +536,10 @@ class ShmSegment:
 # ---------------------------------------------------------------------------
 
 
+class ShmPointerError(ValueError):
+    """A shared-memory pointer batch whose offset/length metadata is missing or not numeric."""
+
+
 def is_shm_pointer_batch(batch: pa.RecordBatch, custom_metadata: pa.KeyValueMetadata | None) -> bool:
     """Check whether a batch is a shared memory pointer.
 
@@ -615,9 +620,18 @@ def resolve_shm_batch(
     assert custom_metadata is not None  # guaranteed by is_shm_pointer_batch
     offset_bytes = custom_metadata.get(SHM_OFFSET_KEY)
     length_bytes = custom_metadata.get(SHM_LENGTH_KEY)
-    assert offset_bytes is not None and length_bytes is not None  # guaranteed by is_shm_pointer_batch
-    offset = int(offset_bytes)
-    length = int(length_bytes)
+    # Both values come from the peer: is_shm_pointer_batch only establishes
+    # that the offset key is present, not that the length key is, nor that
+    # either is a number.
+    if offset_bytes is None or length_bytes is None:
+        raise ShmPointerError("shm pointer batch must carry both 'vgi_rpc.shm_offset' and 'vgi_rpc.shm_length'")
+    try:
+        offset = int(offset_bytes)
+        length = int(length_bytes)
+    except ValueError as exc:
+        raise ShmPointerError(
+            f"shm pointer offset/length are not integers: {offset_bytes!r} / {length_bytes!r}"
+        ) from exc
 
     buf = shm.read_buffer(offset, length)
     resolved_batch = _deserialize_from_shm(buf, batch.schema)
